@@ -18,6 +18,7 @@ import (
 	"os"
 	"runtime"
 	"runtime/pprof"
+	"slices"
 	"sync"
 
 	. "gethverif/harness/hxlib"
@@ -48,6 +49,14 @@ func asWord(v Sx) *uint256.Int {
 
 // ------------------------------------------------------------------ kind 0: arena scripts
 
+// coldPools empties every sync.Pool (two GCs drop the victim caches), so that what a case
+// observes depends on the case alone: earlier executions are part of the case (its dirt
+// parameter, its earlier frames and programs), which keeps replays reproducible.
+func coldPools() {
+	runtime.GC()
+	runtime.GC()
+}
+
 func catchPanic(f func()) (panicked bool) {
 	defer func() {
 		if recover() != nil {
@@ -77,6 +86,7 @@ func runArena(l SL) Result {
 		}
 	}
 
+	coldPools()
 	ar := vm.VerifC28NewArena()
 	if dirt > 0 { // leave values of an "earlier execution" in the arena
 		var fs []*vm.Stack
@@ -345,6 +355,8 @@ func runArena(l SL) Result {
 	if len(fails) > 0 {
 		res.Oracle = fmt.Sprint(fails)
 	}
+	slices.Sort(res.Tags)
+	res.Tags = slices.Compact(res.Tags)
 	res.Tags = append(res.Tags, "arena", fmt.Sprintf("depth%d", min(maxDepth, 5)))
 	if len(ar.Raw()) > 1025 {
 		res.Tags = append(res.Tags, "arena-grown")
@@ -381,6 +393,7 @@ func runMem(l SL) Result {
 			fails = append(fails, fmt.Sprintf(f, a...))
 		}
 	}
+	coldPools()
 	if dirt > 0 { // an "earlier frame" dirties an object and frees it into the pool
 		d := vm.NewMemory()
 		d.Resize(uint64(dirt))
@@ -792,20 +805,6 @@ func execute(cfgsel int, p prog, depth int, sh *shared, mode int, release bool) 
 	}
 	copy(r.logs[:], h.Sum(nil))
 	r.root = db.IntermediateRoot(rules)
-	if os.Getenv("HX_C28_DUMP") != "" {
-		fmt.Fprintf(os.Stderr, "depth %d mode %d root %x\n", depth, mode, r.root[:4])
-		addrs := []common.Address{addrP, addrT0, addrFill, addrDeep, addrDirty, addrEcho, cfg.Origin, cfg.Coinbase, common.BytesToAddress([]byte{4}), common.BytesToAddress([]byte{2})}
-		for k := 1; k <= maxChain; k++ {
-			addrs = append(addrs, trampAddr(k))
-		}
-		for k := 0; k < 6; k++ {
-			fmt.Fprintf(os.Stderr, "  slot %d = %x\n", k, db.GetState(addrP, common.BigToHash(big.NewInt(int64(k)))))
-		}
-		fmt.Fprintf(os.Stderr, "  code %x input %x gas %d\n", p.code, p.input, p.gas)
-		for _, a := range addrs {
-			fmt.Fprintf(os.Stderr, "  %x exist=%v empty=%v nonce=%d bal=%s code=%x sroot=%x\n", a[16:], db.Exist(a), db.Empty(a), db.GetNonce(a), db.GetBalance(a), db.GetCodeHash(a).Bytes()[:4], db.GetStorageRoot(a).Bytes()[:4])
-		}
-	}
 	return r
 }
 
@@ -874,8 +873,7 @@ func runEVM(l SL) Result {
 	refChain := make([]evmResult, len(progs))
 	okRef := 0
 	for i, p := range progs {
-		runtime.GC()
-		runtime.GC()
+		coldPools()
 		refDirect[i] = execute(cfgsel, p, -1, nil, 0, false)
 		refChain[i] = execute(cfgsel, p, 0, nil, 0, false)
 		if p.hasExpect {
